@@ -75,6 +75,9 @@ impl Property for C12 {
                 let mut msg = rng.bytes(4 + ll + plen);
                 let npos = 4 + ll + 64;
                 for pos in 0..npos {
+                    if crate::expired() {
+                        return;
+                    }
                     let keep = msg[pos];
                     for v in 0..256usize {
                         msg[pos] = v as u8;
